@@ -87,7 +87,9 @@ def letter_msg(letter, counter, own_id=1, own_len=0):
     if letter == 'second-ch':
         return {'t': 'CH', 'magic': r.MAGIC.hex(), 'version': 4, 'flags': 0}
     if letter == 'second-init':
-        return {'t': 'SESS_INIT', 'keepalive': 0, 'segment_mru': 100, 'transfer_mru': 1000, 'nodeid': 'dtn://evil/', 'ext': []}
+        # (an attempt to renegotiate: another node id, and now and then a segment MRU of zero)
+        return {'t': 'SESS_INIT', 'keepalive': 7 if counter % 2 else 0, 'segment_mru': 0 if counter % 2 else 100, 'transfer_mru': 1000,
+                'nodeid': 'dtn://evil/', 'ext': []}
     raise ValueError(letter)
 
 
@@ -324,6 +326,9 @@ def execute(case):
                 out.label('ack-end-before-end-was-sent')
             else:
                 msg = letter_msg(letter, counter, int(own[0][0]) if own else 1, len(own[0][1]) if own else 0)
+                if letter == 'second-init' and not in_sess_before:
+                    # before the session exists this is simply the peer's SESS_INIT: keep it one the endpoint can work with
+                    msg['segment_mru'] = 100
             if letter == 'seg-other-id' and peer.open_tid is None and established:
                 letter_eff = 'seg-mid'      # no open transfer: it is simply a segment without a transfer
             else:
